@@ -110,11 +110,29 @@ def make_harness(cases):
             return build(recipe, {} if kind == "shared" else None)
 
         prehistory = "none"
-        if kind == "plain":
-            earlier, nchanged = _earlier_version(recipe)
-            if nchanged:
-                prehistory = e.pick(["none", "earlier-version-written-then-detached", "earlier-version-written-then-replaced-by-a-fresh-build"], "prehistory")
-            if prehistory != "none":
+        if kind in ("plain", "shared"):
+            earlier, nchanged = _earlier_version(recipe) if kind == "plain" else (None, 0)
+            options = ["none", "another-tree-written-with-every-option-and-dialect-first"] + (["earlier-version-written-then-detached", "earlier-version-written-then-replaced-by-a-fresh-build"] if nchanged else [])
+            prehistory = e.pick(options, "prehistory")
+            if prehistory.startswith("another-tree"):
+                # calls with options / dialects on ANOTHER tree (nodes without origin, an origin without
+                # source) earlier in the process: nothing of them may show in the plain output written later
+                from models.zoo import VLeaf, VMany
+                from pyoak.node import AST_SERIALIZE_DIALECT_KEY, ASTSerializationDialects
+                from pyoak.origin import NO_SOURCE as _NS
+                from pyoak.origin import XMLFileOrigin, XMLPath
+                from pyoak.serialize import SerializationOption
+
+                other = VMany(items=(VLeaf(v=4242), VLeaf(v=4243, origin=XMLFileOrigin(_NS, XMLPath("/p")))))
+                for o_ in (
+                    {AST_SERIALIZE_DIALECT_KEY: ASTSerializationDialects.AST_TEST}, {AST_SERIALIZE_DIALECT_KEY: ASTSerializationDialects.AST_EXPLORER},
+                    {SerializationOption.SORT_KEYS: True}, {SerializationOption.SKIP_CLASS: True}, {AST_SERIALIZE_DIALECT_KEY: ASTSerializationDialects.AST_TEST, SerializationOption.SORT_KEYS: True},
+                ):
+                    other.as_dict(serialization_options=o_), other.to_json(serialization_options=o_), other.to_msgpck(serialization_options=o_), other.to_yaml(serialization_options=o_)
+                other.detach()
+                del other
+                prehistory = "another-tree-written-with-every-option-and-dialect-first"
+            if prehistory.startswith("earlier-version"):
                 # an earlier version of the same tree (other values in non-comparable properties only,
                 # so: equal, and the same ids once it has left the registry) was written in every
                 # format and is still referenced when the tree under test is built and written
